@@ -377,7 +377,7 @@ func (e *Exec) modifiesLocs(env *Env, fc *FuncContract) []modLoc {
 	defer func() { env.inOld = savedOld }()
 	one := ConstI(1, Ref)
 	for _, m := range fc.Modifies {
-		if m.Kind == SIdent && e.C.GhostMaps[m.Name] {
+		if (m.Kind == SIdent || (m.Kind == SSel && m.Args[0].Kind == SIdent)) && e.C.GhostMaps[m.Name] {
 			out = append(out, modLoc{"ghost:" + m.Name, I64, nil, nil})
 			continue
 		}
